@@ -85,6 +85,8 @@ class C13(Prop):
     partial = {
         "C13_parse_partial": "holds for every epoch whose decimal form has at most 4300 digits (CPython's int/str conversion limit, "
                              "sys.get_int_max_str_digits); beyond it parse_nvra raises ValueError (C13_parse_epoch_limit; known finding F19)",
+        "C13_parse_table_partial": "the same statement with the property's alphabets and the regenerated RPM_ARCHES; same epoch limit",
+        "C13_fixpoint_partial": "same epoch limit (the canonical form prints the epoch in decimal)",
     }
 
     def __init__(self):
